@@ -512,7 +512,8 @@ class SymReal(object):
         raise Unsupported("float() of symbolic real")
 
     def _ok(self, o):
-        if isinstance(o, (SymReal, SymInt, SymBool, int, float)):
+        from fractions import Fraction
+        if isinstance(o, (SymReal, SymInt, SymBool, int, float, Fraction)):
             return True
         try:
             import numpy as np
